@@ -200,4 +200,31 @@ def run(tier):
                                      file=fn.relfile, line=n.get("ln", ln))
                     res.instance("C16.R2", "%s:%s %s" % (fn.name, n.get("ln", ln), what), ok, finding=f_)
     res.floor("C16.R2", 5)
+
+    # ------------------------------------------------------------------ R3
+    res.rule("C16.R3", "a flight is rebuilt for retransmission only on a flight boundary of the session's role "
+                       "(every `allowed` store in canResend lies under a test of hsState)")
+    cr = prog.fn("canResend")
+    gfc = cu.guard_facts(cr)
+    n3 = 0
+    for b in cr.blocks:
+        for i, ln, x in cu.block_exprs(b):
+            for n in walk(x):
+                if n.get("k") == "bin" and n["op"] == "=" and (strip(n["l"]) or {}).get("k") == "var" and \
+                        (strip(n["r"]) or {}).get("k") == "int" and strip(n["r"])["v"] != 0 and \
+                        (strip(n["l"]) or {}).get("t", "") in ("_Bool", "bool", "int", "int32", "int32_t"):
+                    n3 += 1
+                    facts = gfc.get(b["id"], frozenset())
+                    ok = any(tr and t_.startswith("(ssl->hsState == ") for (t_, tr) in facts)
+                    role = "server" if any(tr and "ssl->flags & 1)" in t_ for (t_, tr) in facts) else \
+                        "client" if any((not tr) and "ssl->flags & 1)" in t_ for (t_, tr) in facts) else "?"
+                    f_ = None
+                    if not ok:
+                        f_ = Finding(PROP, "C16.R3", "canResend", "retransmission allowed in every %s state" % role,
+                                     "canResend allows rebuilding the last flight at line %s without a test of ssl->hsState (%s branch): in the "
+                                     "middle of the peer's flight the flight encoder has no flight of this role for the state and runs the "
+                                     "other role's code (NULL key material)" % (ln, role), file=cr.relfile, line=ln)
+                    res.instance("C16.R3", "canResend: allowed at line %s under %s" % (
+                        ln, sorted(t_ for (t_, tr) in facts if tr and "hsState" in t_) or "no state test"), ok, finding=f_)
+    res.floor("C16.R3", 6)
     return res.finish()
